@@ -4,6 +4,7 @@ import (
 	"fmt"
 	"math"
 	"math/rand/v2"
+	"sync"
 	"testing"
 
 	"github.com/high-moctane/mocrelay"
@@ -24,7 +25,9 @@ var c02U = c02Universe{
 	authors:  []string{vk.FakePub(0), vk.FakePub(1), vk.FakePub(2)},
 	kinds:    []int64{0, 1, 5, 30000},
 	tagNames: []string{"e", "p", "t", "E", "client", "expiration", "title", "pow", "Emoji"},
-	tagVals:  []string{"", "v1", "v2"},
+	// "itle" and "ow": a multi-letter tag name followed by its value must not read like a
+	// one-letter name with a longer value (["title",""] vs #t:["itle"], ["pow",""] vs #p:["ow"])
+	tagVals: []string{"", "v1", "v2", "itle", "ow"},
 }
 
 // c02Edges are the boundary timestamps: the ends of the int64 range, the values around
@@ -124,7 +127,7 @@ func c02Filter(r *rand.Rand, withLimit bool) *mocrelay.ReqFilter {
 
 func TestVerif_C02(t *testing.T) {
 	rep := vk.NewReport(t, "C02", "exploration")
-	rep.Rule = "events and filters drawn from a tiny universe (4 ids, 3 authors, 4 kinds, 9 tag names x 3 values, timestamps 0..5 and, one time in eight, a boundary value: ends of the int64 range and the points where conversions to time.Time, float64 or int32 wrap); every filter field independently absent/empty/singleton/multi; a case is one (event, filter) pair or one (event sequence, filter list) limit run; non-trivial = the filter has at least one condition present; distinct = distinct (presence mask, per-condition outcome vector) for pairs, distinct (limit vector, done-prefix pattern) for sequences"
+	rep.Rule = "events and filters drawn from a tiny universe (4 ids, 3 authors, 4 kinds, 9 tag names x 5 values (two of them suffixes of multi-letter tag names), timestamps 0..5 and, one time in eight, a boundary value: ends of the int64 range and the points where conversions to time.Time, float64 or int32 wrap); every filter field independently absent/empty/singleton/multi; a case is one (event, filter) pair or one (event sequence, filter list) limit run; 400/8000 matchers are each used by four goroutines at once; non-trivial = the filter has at least one condition present; distinct = distinct (presence mask, per-condition outcome vector) for pairs, distinct (limit vector, done-prefix pattern) for sequences"
 	defer rep.Finish()
 
 	nPairs := vk.N(200_000, 5_000_000)
@@ -259,6 +262,42 @@ func TestVerif_C02(t *testing.T) {
 			rep.Count("limit_sequences", 1)
 		}
 		rep.Eval(100)
+	})
+
+	// (c) one matcher shared by several goroutines (the router calls the matcher of a live
+	// subscription from every publishing session at once): Match must stay a function of
+	// (event, filter); the race detector watches the matcher's internals
+	nShared := vk.N(400, 8000)
+	vk.Parallel(nShared, func(ci int) {
+		r := vk.RNG("C02/shared", ci)
+		f := c02Filter(r, false)
+		if f.Tags == nil || r.IntN(2) == 0 {
+			f.Tags = map[string][]string{"e": c02Sub(r, c02U.tagVals, "absent"), "p": c02Sub(r, c02U.tagVals, "absent")}
+		}
+		m := mocrelay.NewReqFilterMatcher(f)
+		var wg sync.WaitGroup
+		for g := 0; g < 4; g++ {
+			wg.Add(1)
+			go func(g int) {
+				defer wg.Done()
+				rr := vk.RNG("C02/shared/g", ci*4+g)
+				for k := 0; k < 60; k++ {
+					e := c02Event(rr)
+					if k%2 == 0 { // several e / p tags so that a shared scratch area is written repeatedly
+						e.Tags = append(e.Tags, mocrelay.Tag{"e", vk.Pick(rr, c02U.tagVals)}, mocrelay.Tag{"e", vk.Pick(rr, c02U.tagVals)}, mocrelay.Tag{"p", vk.Pick(rr, c02U.tagVals)})
+					}
+					want := vk.RefMatch(f, e)
+					if got := m.Match(e); got != want {
+						rep.Violation("match/shared-matcher", fmt.Sprintf("Match=%v, NIP-01 predicate=%v on a matcher used by four goroutines at once", got, want),
+							map[string]any{"filter": f, "event": e})
+						return
+					}
+				}
+			}(g)
+		}
+		wg.Wait()
+		rep.Count("matchers_shared_by_4_goroutines", 1)
+		rep.Eval(240)
 	})
 
 	rep.Require(rep.Counter("pairs_matching") > int64(nPairs/50), "too few matching pairs")
